@@ -1,7 +1,9 @@
-(* C19 model: hand model of the room / user notification handlers of
-   /repo/src/aioslsk/room/manager.py (141-522) and user/manager.py (317-451), one clause per
-   @on_message handler, statement by statement.  Definitions only; executable (vm_compute) - the
-   correspondence check runs [run] against the real RoomManager / UserManager.
+(* C19 model, base part: the Python containers, the records, the primitive state transformers
+   (get_user_object / get_or_create_room + one attribute update) and the four handlers with loops
+   (_on_room_list, _on_join_room, _on_chat_room_tickers, _on_privileged_users: hand-modelled and
+   shape-pinned by translate/tr_rooms.py).  The clauses of the 22 straight-line handlers and
+   [apply_msg] itself are GENERATED from the source into SlskGen.RoomGen on every run.
+   Definitions only; executable (vm_compute).
 
    Only the vocabulary (msg, event, blockmap) is taken from Spec.v; none of its step functions
    is used here.
@@ -78,8 +80,6 @@ Section Handlers.
   Variable me : name.
   Variable bl : blockmap.
 
-  Definition ev (l : label) (r : option room) (u : option name) : list event := [mkEv l r u].
-
   (* _on_room_list *)
   Definition fix_room (pub owned priv operated : list room) (r : room) (x : rrec) : rrec :=
     let x1 := if negb (mem r owned) then
@@ -108,108 +108,17 @@ Section Handlers.
                 upd_room r false (fun x => set_users (sadd (fst p) (r_users x)) x) s') us s1 in
     upd_room r false (fun x => set_ops (sof ops) (set_owner owner x)) s2.
 
-  Definition apply_msg (s : state) (m : msg) : state * list event :=
-    match m with
-    | RoomListM pub owned priv operated =>
-        (on_room_list pub owned priv operated s, ev LRoomList None None)
-    | JoinRoomM r us owner ops =>
-        (on_join_room r us owner ops s, ev LRoomJoined (Some r) None)
-    | LeaveRoomM r =>
-        (upd_room r false (fun x => set_users [] (set_joined false x)) s, ev LRoomLeft (Some r) None)
-    | UserJoinedM r u st ss =>
-        let s1 := upd_user u (set_status_stats st ss) s in
-        (upd_room r false (fun x => set_users (sadd u (r_users x)) x) s1, ev LRoomJoined (Some r) (Some u))
-    | UserLeftM r u =>
-        let s1 := touch_user u s in
-        (upd_room r false (fun x => set_users (sdiscard u (r_users x)) x) s1, ev LRoomLeft (Some r) (Some u))
-    | MemberGrantM r u =>
-        let s1 := upd_room r true (fun x => x) s in
-        let s2 := touch_user u s1 in
-        (upd_room r true (fun x => set_members (sadd u (r_members x)) x) s2, ev LMembershipGranted (Some r) (Some u))
-    | MembershipGrantedM r =>
-        let s1 := upd_room r true (fun x => x) s in
-        let s2 := touch_user me s1 in
-        (upd_room r true (fun x => set_members (sadd me (r_members x)) x) s2, ev LMembershipGranted (Some r) None)
-    | MemberRevokeM r u =>
-        let s1 := upd_room r true (fun x => x) s in
-        let s2 := touch_user u s1 in
-        (upd_room r true (fun x => set_ops (sdiscard u (r_ops x)) (set_members (sdiscard u (r_members x)) x)) s2,
-         ev LMembershipRevoked (Some r) (Some u))
-    | MembershipRevokedM r =>
-        let s1 := upd_room r true (fun x => x) s in
-        let s2 := touch_user me s1 in
-        (upd_room r true (fun x => set_ops (sdiscard me (r_ops x)) (set_members (sdiscard me (r_members x)) x)) s2,
-         ev LMembershipRevoked (Some r) None)
-    | MembersM r l =>
-        let s1 := upd_room r true (fun x => set_members (sof l) x) s in
-        (fold_left (fun s u => touch_user u s) l s1, ev LMembers (Some r) None)
-    | OperatorsM r l =>
-        let s1 := upd_room r true (fun x => set_ops (sof l) x) s in
-        (fold_left (fun s u => touch_user u s) (sof l) s1, ev LOperators (Some r) None)
-    | OpGrantedM r =>
-        (* room/manager.py _on_operator_granted: room.operators.add(own name)   (F24 repaired) *)
-        let s1 := upd_room r true (fun x => x) s in
-        let s2 := touch_user me s1 in
-        (upd_room r true (fun x => set_ops (sadd me (r_ops x)) x) s2, ev LOperatorGranted (Some r) None)
-    | OpRevokedM r =>
-        let s1 := upd_room r true (fun x => x) s in
-        let s2 := touch_user me s1 in
-        (upd_room r true (fun x => set_ops (sdiscard me (r_ops x)) x) s2, ev LOperatorRevoked (Some r) None)
-    | OpGrantM r u =>
-        let s1 := touch_user u s in
-        (upd_room r true (fun x => set_ops (sadd u (r_ops x)) x) s1, ev LOperatorGranted (Some r) (Some u))
-    | OpRevokeM r u =>
-        let s1 := touch_user u s in
-        (upd_room r true (fun x => set_ops (sdiscard u (r_ops x)) x) s1, ev LOperatorRevoked (Some r) (Some u))
-    | TickersM r l =>
-        let s1 := upd_room r false (fun x => x) s in
-        let s2 := fold_left (fun s p => touch_user (fst p) s) l s1 in
-        (upd_room r false (set_tickers (aof l)) s2, ev LRoomTickers (Some r) None)
-    | TickerAddM r u t =>
-        let s1 := upd_room r false (fun x => x) s in
-        let s2 := touch_user u s1 in
-        (upd_room r false (fun x => set_tickers (aset u t (r_tickers x)) x) s2, ev LTickerAdded (Some r) (Some u))
-    | TickerRemM r u =>
-        let s1 := upd_room r false (fun x => x) s in
-        let s2 := touch_user u s1 in
-        (upd_room r false (fun x => set_tickers (adel u (r_tickers x)) x) s2, ev LTickerRemoved (Some r) (Some u))
-    | RoomChatM r u t =>
-        if blocked_room bl u then (s, [])
-        else (upd_room r false (fun x => x) (touch_user u s), ev LRoomMessage (Some r) (Some u))
-    | PublicChatM r u t =>
-        if blocked_room bl u then (s, [])
-        else (touch_user u (upd_room r false (fun x => x) s), ev LPublicMessage (Some r) (Some u))
-    | PrivateChatM u t =>
-        if blocked_private bl u then (s, [])
-        else (touch_user u s, ev LPrivateMessage None (Some u))
-    | UserStatusM u st p =>
-        (upd_user u (fun x => mkU st (u_stats x) p) s, ev LUserStatus None (Some u))
-    | UserStatsM u ss =>
-        (upd_user u (fun x => mkU (u_status x) (Some ss) (u_priv x)) s, ev LUserStats None (Some u))
-    | AddUserM u ex st ss =>
-        (upd_user u (fun x => if ex then mkU st (match ss with Some v => Some v | None => u_stats x end) (u_priv x) else x) s, [])
-    | PrivUsersM l =>
-        let us := map (fun p => (fst p, mkU (u_status (snd p)) (u_stats (snd p)) (mem (fst p) l))) (users s) in
-        let s1 := mkS (rooms s) us (sof l) in
-        (fold_left (fun s u => touch_user u s) l s1, ev LPrivilegedUsers None None)
-    | AddPrivUserM u =>
-        (upd_user u (fun x => mkU (u_status x) (u_stats x) true) s, ev LPrivilegedUserAdded None (Some u))
-    end.
+  (* _on_chat_room_tickers: room first, every ticker's user object is fetched, the new dict replaces the old *)
+  Definition on_room_tickers (r : room) (l : list (name * text)) (s : state) : state :=
+    let s1 := upd_room r false (fun x => x) s in
+    let s2 := fold_left (fun s p => touch_user (fst p) s) l s1 in
+    upd_room r false (set_tickers (aof l)) s2.
 
-  Fixpoint run (s : state) (ms : list msg) : state * list (list event) :=
-    match ms with
-    | [] => (s, [])
-    | m :: r => let '(s1, e) := apply_msg s m in let '(s2, es) := run s1 r in (s2, e :: es)
-    end.
-
-  Definition fold (s : state) (ms : list msg) : state := fold_left (fun s m => fst (apply_msg s m)) ms s.
-
-  (* all intermediate (state, events) pairs: what the correspondence check compares *)
-  Fixpoint trace (s : state) (ms : list msg) : list (state * list event) :=
-    match ms with
-    | [] => []
-    | m :: r => let p := apply_msg s m in p :: trace (fst p) r
-    end.
+  (* _on_privileged_users: every known user is re-flagged, the set is replaced, the listed user objects are fetched *)
+  Definition on_privileged_users (l : list name) (s : state) : state :=
+    let us := map (fun p => (fst p, mkU (u_status (snd p)) (u_stats (snd p)) (mem (fst p) l))) (users s) in
+    let s1 := mkS (rooms s) us (sof l) in
+    fold_left (fun s u => touch_user u s) l s1.
 End Handlers.
 
 (* ---- the observable view of a state (the questions of Spec.v asked of the model) ---- *)
